@@ -90,7 +90,13 @@ def nontrivial_feat(f):
 
 
 def sizes(res, quick, thorough):
-    return quick if res.tier == "quick" else thorough
+    if res.tier != "quick":
+        return thorough
+    k = getattr(res, "escalate", 1)
+    if k == 1:
+        return quick
+    # more games / more constructed positions / more corpus, same playout length
+    return tuple(min(t, q * k) if i != 1 else q for i, (q, t) in enumerate(zip(quick, thorough)))
 
 
 def compare(res, what, reqs, impl, model, keep=lambda r: True):
